@@ -40,28 +40,6 @@ open StVerif.Compare StVerif.Lemmas.Compare
 
 /-! ### C strings -/
 
-theorem take_strlen (p : List Nat) : p.take (strlen p) = cstr p := by
-  induction p with
-  | nil => rfl
-  | cons c rest ih =>
-    unfold strlen cstr
-    by_cases hc : c = 0
-    · subst hc; simp
-    · rw [if_neg hc]
-      simp only [List.take_succ_cons, List.takeWhile_cons, ne_eq, hc, not_false_eq_true, decide_true, if_true]
-      rw [ih]; rfl
-
-theorem strlen_eq (p : List Nat) : strlen p = (cstr p).length := by
-  induction p with
-  | nil => rfl
-  | cons c rest ih =>
-    unfold strlen cstr
-    by_cases hc : c = 0
-    · subst hc; simp
-    · rw [if_neg hc]
-      simp only [List.takeWhile_cons, ne_eq, hc, not_false_eq_true, decide_true, if_true, List.length_cons]
-      rw [ih]; rfl
-
 theorem strlen_le (p : List Nat) : strlen p ≤ p.length := by
   rw [strlen_eq]; unfold cstr; exact (List.takeWhile_sublist _).length_le
 
@@ -321,11 +299,11 @@ theorem compareModeN_prefix_eq_zero (cs : CaseMode) (s p : List Nat) (n : Nat) (
   have hl : (s.take n).length = (p.take n).length := by simp [List.length_take]; omega
   cases cs with
   | sensitive =>
-    simp only [compareModeN, compareSizedN, compareSized, m1, m2, sizeDiffNarrowed_self, norm]
+    simp only [compareModeN, compareSizedN, compareSized, m1, m2, sizeOrder_self, norm]
     rw [← traitsCompare_char_eq_zero_iff _ _ hl]
     by_cases h : traitsCompare .char (s.take n) (p.take n) = 0 <;> simp [h]
   | insensitive =>
-    simp only [compareModeN, compareCiSizedN, compareCiSized, m1, m2, sizeDiffNarrowed_self, norm]
+    simp only [compareModeN, compareCiSizedN, compareCiSized, m1, m2, sizeOrder_self, norm]
     rw [← compareCi3_eq_zero_iff _ _ hl (bytes_take bs n) (bytes_take bp n)]
     by_cases h : compareCi3 (s.take n) (p.take n) = 0 <;> simp [h]
 
@@ -345,7 +323,7 @@ theorem startsWith_iff (cs : CaseMode) (s : List Nat) (a : Affix) (bs : Bytes s)
     cases p with
     | none =>
       cases cs <;> simp [startsWith, Affix.text, StartsWith, compareModeN, compareSizedN, compareSized, compareCiSizedN,
-        compareCiSized, traitsCompare, compareCi3, sizeDiffNarrowed_self, norm]
+        compareCiSized, traitsCompare, compareCi3, sizeOrder_self, norm]
     | some p =>
       simp only [startsWith, Affix.text, StartsWith]
       simp only [Affix.text] at ba
